@@ -1,7 +1,7 @@
 """C12 — untrusted input never corrupts memory or kills the process.
 
 stages
-  0  w_c12 ("san")       structure-aware mutator: ~28 000 (quick) / ~10^6 (thorough) mutated inputs over
+  0  w_c12 ("san")       structure-aware mutator: ~23 600 (quick) / ~3.4*10^5 (thorough) mutated inputs over
                           111 entry points, one input per case (crash isolation + exact replay)
   1  fuzz driver ("fuzz") libFuzzer targets fz_c12_<t>, one shard per target, triage loop in
                           ref/c12_fuzzdrv.py (artifact re-run alone -> violation key, restart with next seed)
@@ -30,13 +30,13 @@ TARGETS_QUICK = ["pkt", "blk", "msg", "sig"]                 # the OpenPGP targe
 TARGETS_ALL = ["imp", "key", "grp", "pkt", "blk", "msg", "sig"]
 # executions per target (bounded by count, never by time); kept below the depth soaked clean (notes/c12.md)
 RUNS = {"quick": dict(pkt=40000, sig=40000, msg=20000, blk=3000),
-        "thorough": dict(pkt=2000000, sig=2000000, key=2000000, msg=1000000, blk=100000, imp=200000, grp=20000)}
+        "thorough": dict(pkt=2000000, sig=2000000, key=2000000, msg=1000000, blk=300000, imp=60000, grp=30000)}
 
 ENTRY_GROUPS = {
     "import": "import(string) and operator>> of TMCG_Card, TMCG_CardSecret, VTMF_Card, VTMF_CardSecret, TMCG_Stack<>, TMCG_StackSecret<> (both card types), mpz operator>>",
     "key": "TMCG_PublicKey / TMCG_SecretKey: import, string constructor, operator>>, then check/verify/encrypt; verify(sig) / decrypt(ciphertext) of hostile text under a trusted key",
     "ctor": "stream constructor + CheckGroup/CheckKey + destructor of 15 group/state-carrying classes",
-    "verify": "`in` side of every public verifier with a well-formed local statement: 18 non-interactive proofs (whole-text mutation) and 32 interactive protocols over vf::TwoParty with the relay as hostile prover",
+    "verify": "`in` side of every public verifier with a well-formed local statement: 19 non-interactive proofs (whole-text mutation) and 26 interactive protocols over vf::TwoParty with the relay as hostile prover",
     "pgp": "ArmorDecode, PacketDecode, SubpacketDecode, PublicKeyBlockParse, PrivateKeyBlockParse, SignatureParse, PublicKeyringParse, MessageParse (binary and armored) + checks/Decrypt/Verify on what was parsed",
     "aio": "aiounicast_select / aiounicast_nonblock Receive on arbitrary wire bytes, 6 (auth, enc, chunked) modes each",
 }
@@ -117,7 +117,7 @@ def spec(tier, seed, repo):
         mc = _wrapper("memcheck", ['exec valgrind -q --error-exitcode=99 --exit-on-first-error=yes --leak-check=no --num-callers=12 "%s" "$@"' % fast["binary"]])
         stages.append(dict(binary=mc, flavour="fast", args=["--opt", "corpus=" + CORPUS, "--opt", "sample=2000", "--opt", "tierplan=quick"], nshards=16, case_timeout=1800,
                            total_timeout=4 * 3600, env={}, keep_recs=False, name="memcheck(w_c12 fast, sample 2000)"))
-    floors = {"cases": 20000 if quick else 600000, "seed_accepted": 250, "fuzz_execs": int(0.9 * sum(RUNS[tier][t] for t in targets)),
+    floors = {"cases": 20000 if quick else 300000, "seed_accepted": 250, "fuzz_execs": int(0.9 * sum(RUNS[tier][t] for t in targets)),
               "group.import": 1000, "group.key": 1000, "group.ctor": 1000, "group.verify": 1500, "group.pgp": 8000, "group.aio": 600}
     return dict(
         stages=stages, level="fault_enumeration",
